@@ -8,6 +8,7 @@
 package main
 
 import (
+	"bytes"
 	"fmt"
 	"github.com/oasisprotocol/curve25519-voi/zzverif/corpus"
 	"math/big"
@@ -202,6 +203,76 @@ func concurrent(r *mon.Run, ks []*big.Int) {
 	}
 }
 
+// concurrentExpanded: the precomputed-key variant takes the key as a read-only input; several goroutines verifying
+// against ONE shared expansion (a cached public key) must each get the answer a single goroutine gets.
+func concurrentExpanded(r *mon.Run) {
+	rng := r.Rng("c16/concurrent-expanded")
+	xk := new(big.Int).Mod(gen.Rand255(rng), L)
+	A := ref.B.Mul(xk)
+	libA := gen.LibPoint(ref.Encode(A))
+	shared := curve.NewExpandedEdwardsPoint(libA)
+	type job struct {
+		a, b *scalar.Scalar
+		c    *curve.EdwardsPoint
+		want bool
+	}
+	const G, per = 8, 120
+	jobs := make([][]job, G)
+	for g := range jobs {
+		for i := 0; i < per; i++ {
+			a, b := new(big.Int).Mod(gen.Rand255(rng), L), new(big.Int).Mod(gen.Rand255(rng), L)
+			cp := A.Mul(a).Add(ref.B.Mul(b))
+			want := i%3 != 0
+			if !want {
+				cp = cp.Add(ref.B)
+			}
+			jobs[g] = append(jobs[g], job{sc(a), sc(b), gen.LibPoint(ref.Encode(cp)), want})
+		}
+	}
+	var wg sync.WaitGroup
+	var wrong, exceeded, calls int64
+	zzverifrt.ArmShared(int64(G*per) * 2_000_000)
+	for g := 0; g < G; g++ {
+		wg.Add(1)
+		go func(g int) {
+			defer wg.Done()
+			defer func() {
+				if e := recover(); e != nil {
+					if _, ok := e.(zzverifrt.BudgetExceeded); ok {
+						atomic.AddInt64(&exceeded, 1)
+						return
+					}
+					panic(e)
+				}
+			}()
+			for _, j := range jobs[g] {
+				got := curve.NewEdwardsPoint().ExpandedTripleScalarMulBasepointVartime(j.a, shared, j.b, j.c).IsSmallOrder()
+				atomic.AddInt64(&calls, 1)
+				if got != j.want {
+					atomic.AddInt64(&wrong, 1)
+				}
+			}
+		}(g)
+	}
+	wg.Wait()
+	zzverifrt.Arm(0)
+	r.EvalN(calls)
+	r.HistN("concurrent/ExpandedTriple-calls-on-a-shared-expansion", calls)
+	cc := Case{Kind: "concurrent-expanded"}
+	if wrong > 0 {
+		r.Violate("triple/expanded/shared-expansion-under-concurrency", fmt.Sprintf("%d of %d calls on one shared expansion gave the wrong answer (true equations reported outside E[8] or false ones inside) while %d goroutines used it", wrong, calls, G), cc)
+	}
+	if exceeded > 0 {
+		r.Violate("triple/expanded/non-termination-under-concurrency", fmt.Sprintf("%d goroutines exceeded the shared loop budget", exceeded), cc)
+	}
+	// and afterwards the expansion still stands for A
+	if got := curve.NewEdwardsPoint().ExpandedDoubleScalarMulBasepointVartime(scalar.One(), shared, scalar.New()); !bytes.Equal(encE(got), ref.Encode(A)) {
+		r.Violate("triple/expanded/shared-expansion-changed", "after concurrent use the shared expansion no longer stands for its point", cc)
+	}
+}
+
+func encE(p *curve.EdwardsPoint) []byte { b, _ := p.MarshalBinary(); return b }
+
 func kCatalogue(rng *rand.Rand, nrand int) []*big.Int {
 	var ks []*big.Int
 	add := func(v *big.Int) {
@@ -343,6 +414,8 @@ func runCase(r *mon.Run, c Case, ks []*big.Int) {
 		triple(r, c, ks)
 	case "concurrent":
 		concurrent(r, ks)
+	case "concurrent-expanded":
+		concurrentExpanded(r)
 	}
 }
 
@@ -366,6 +439,7 @@ func main() {
 		triple(r, Case{Kind: "triple", Stream: fmt.Sprintf("c16/triple/%d", i)}, ks)
 	}
 	concurrent(r, ks)
+	concurrentExpanded(r)
 	r.Sample("k", fmt.Sprintf("%x", ks[40]))
 	r.Sample("k", fmt.Sprintf("%x", ks[len(ks)/2]))
 	r.Sample("case", Case{Kind: "triple", Stream: "c16/triple/0"})
